@@ -31,7 +31,7 @@ ASSUMPTIONS = [
     "unique ids are distinct per spreadsheet row (artificial fee rows share the id of their acquisition and are told apart by table)",
 ]
 
-HIST = gen.GenCfg(min_steps=4, max_steps=12, max_exchanges=2, max_holders=2, bulk_prob=0.05, fiat_columns=True)
+HIST = gen.GenCfg(min_steps=4, max_steps=12, max_exchanges=2, max_holders=2, bulk_prob=0.05, fiat_columns=True, big_lots=3)
 EVENT_COLS = (5, 6, 7, 8, 9, 10, 11)
 LOT_COLS = (12, 13, 14, 15, 16, 17, 18, 19)
 
@@ -42,7 +42,7 @@ def budget(tier: str) -> Dict[str, Any]:
 
 @st.composite
 def strategy_case(draw: Any) -> Dict[str, Any]:
-    case = draw(filegen.file_case(countries=("us", "us", "es", "generic", "ie", "jp"), hist=HIST, max_assets=3, min_assets=draw(st.sampled_from([1, 2, 2, 2]))))
+    case = draw(filegen.file_case(countries=("us", "us", "es", "generic", "ie", "jp"), hist=HIST, max_assets=3, min_assets=draw(st.sampled_from([1, 2, 2, 2])), flavours=("mixed", "mixed", "mixed", "mixed", "dust_on_big_lot")))
     if draw(st.integers(0, 3)) and not case.get("from") and case["country"] != "jp":
         # most cases get a from-date so that lots are hidden
         txs = [t for rows in filegen.case_post_rows(_stamped(case)).values() for t in model.make_txs(rows)]
